@@ -131,6 +131,13 @@ struct Dom
                 ops.push_back(Op{"create_sub", {p}, {name}});
                 for (int a : kids_of(p)) ops.push_back(Op{"create_sub_after", {p, a}, {name}});
             }
+            // anchors that are not siblings of the new crate (the receiver itself, a root, a crate elsewhere): a refusal is
+            // the expected answer; if the call is accepted the position is open but every listing invariant still applies
+            for (int a : live)
+                if (m.c[a].parent != -1) ops.push_back(Op{"create_root_after", {a}, {name}});
+            for (int p : live)
+                for (int a : live)
+                    if (m.c[a].parent != p) ops.push_back(Op{"create_sub_after", {p, a}, {name}});
         }
         for (int c : live)
         {
@@ -159,7 +166,10 @@ struct Dom
             if (checking) a.violation("v2|" + op.f + "|" + inv, "[" + schema_name(w.schema) + "] after " + op.str() + ": " + what, cid);
         };
         if (checking) a.count("op." + op.f + (r.ok ? ".ok" : ".rejected"));
-        if (!r.ok) viol("rejected_valid_operation", "operation was rejected: " + r.ex_type + ": " + r.what);
+        bool foreign_anchor = false;
+        if (op.f == "create_root_after") foreign_anchor = m.c[op.i[0]].parent != -1;
+        if (op.f == "create_sub_after") foreign_anchor = m.c[op.i[1]].parent != (int)op.i[0];
+        if (!r.ok && !foreign_anchor) viol("rejected_valid_operation", "operation was rejected: " + r.ex_type + ": " + r.what);
         // listing of a parent in the implementation, as crate indices (-2 for an unknown id)
         auto impl_list = [&](int p) {
             std::vector<int64_t> ids;
@@ -201,7 +211,7 @@ struct Dom
                 m.c.push_back(nc);
                 ++m.created;
                 int me = (int)m.c.size() - 1;
-                if (after)
+                if (after && !foreign_anchor)
                 {
                     auto& lst = m.kids[p];
                     auto it = std::find(lst.begin(), lst.end(), anchor);
